@@ -174,29 +174,32 @@ def random_histories(chk, prefixes, quick_n=150, thorough_n=4000):
     res = replay_and_validate(chk, beh, "random-histories", prefixes, isolate=True)
     # and histories drawn by TLC from the specification itself (spec/CerSim.tla), judged in the model as well
     tlc_histories(chk, prefixes, 5 * n if chk.tier == "thorough" else 2 * n)
+    if chk.tier == "thorough":
+        # long histories (up to 25 ceremonies per run)
+        tlc_histories(chk, prefixes, n, depth=1000, cfg="CerSimDeep.cfg")
     return res
 
 
-def tlc_histories(chk, prefixes, n, depth=400):
+def tlc_histories(chk, prefixes, n, depth=400, cfg="CerSim.cfg"):
     """specification -> implementation: random mixed histories generated by TLC itself (spec/CerSim.tla, -simulate):
     every state is judged by the layer-A invariants in the model, every finished history is replayed on the code."""
     t0 = time.time()
-    r = vlib.tlc("CerSim.tla", "CerSim.cfg", chk.work, workers=1, timeout=3600, simulate="num=%d" % n, seed=chk.seed, xmx="6g")
+    r = vlib.tlc("CerSim.tla", cfg, chk.work, workers=1, timeout=3600, simulate="num=%d" % n, seed=chk.seed, xmx="6g", depth=depth)
     if r.invariant_violated:
         names = [ln for ln in r.out.splitlines() if ln.startswith('<<"VIOLATED"')]
         chk.violation({"inv": "model", "cfg": "CerSim", "names": names[:1]},
                       "the specification itself (CerSim.tla, simulation) reaches a state violating %s" % names[:1],
-                      {"kind": "tlc-counterexample", "cfg": "CerSim.cfg", "out": r.out[-6000:]})
+                      {"kind": "tlc-counterexample", "cfg": cfg, "out": r.out[-6000:]})
         return None
     plans = r.prints("REPLAY")
     if len(plans) < n:
         raise vlib.ToolError("CerSim exported %d of %d histories:\n%s" % (len(plans), n, r.out[-1500:]))
     m = __import__("re").search(r"(\d+) states checked", r.out)
-    chk.cov["model_runs"].append({"cfg": "CerSim.cfg (simulate)", "traces": len(plans), "states_checked": int(m.group(1)) if m else 0})
+    chk.cov["model_runs"].append({"cfg": cfg + " (simulate)", "traces": len(plans), "states_checked": int(m.group(1)) if m else 0})
     chk.cov["states"] += int(m.group(1)) if m else 0
     chk.cov["tlc_simulated_histories"] = chk.cov.get("tlc_simulated_histories", 0) + len(plans)
     chk.cov.setdefault("phase_seconds", {})["simulation"] = round(time.time() - t0, 1)
-    return replay_and_validate(chk, expand(plans), "tlc-simulated-histories", prefixes, isolate=True)
+    return replay_and_validate(chk, expand(plans), "tlc-simulated-histories" + ("-deep" if "Deep" in cfg else ""), prefixes, isolate=True)
 
 
 def finish_cov(chk, rule, exhaustive, note):
